@@ -9,7 +9,9 @@ pub mod c06;
 pub mod c09;
 pub mod c10;
 pub mod c11;
+pub mod c16;
 pub mod c18;
+pub mod c20;
 pub mod ppcommon;
 
 pub fn by_id(id: &str) -> Option<Box<dyn Prop>> {
@@ -23,7 +25,9 @@ pub fn by_id(id: &str) -> Option<Box<dyn Prop>> {
         "C09" => Some(Box::new(c09::C09)),
         "C10" => Some(Box::new(c10::C10)),
         "C11" => Some(Box::new(c11::C11)),
+        "C16" => Some(Box::new(c16::C16)),
         "C18" => Some(Box::new(c18::C18)),
+        "C20" => Some(Box::new(c20::C20)),
         _ => None,
     }
 }
